@@ -3,6 +3,7 @@ import io
 import sys
 import copy
 import json
+import os
 import random
 import socket
 import logging
@@ -42,7 +43,8 @@ ASSUMPTIONS = [
     "termination is judged on a logical step budget (sys.monitoring PY_START events), the "
     "wall-clock watchdog only makes a run inconclusive",
 ]
-FLOORS = {"quick": {"nesting_depths_swept": 4000, "evaluations": 10000, "raw_lines": 1500, "json_hostile": 300,
+FLOORS = {"quick": {"nesting_depths_swept": 4000, "socket_level_misbehaviours": 20,
+                    "evaluations": 10000, "raw_lines": 1500, "json_hostile": 300,
                     "structure_aware": 8000, "live_lines": 100, "answered": 12000,
                     "hostile_leaves": 150},
           "thorough": {"evaluations": 300000, "raw_lines": 40000, "json_hostile": 4000,
@@ -503,6 +505,10 @@ def run_shard(spec, acc):
                                               if len(line) < 20000 else None})
         # live server
         live(acc, spec, rng, 8 if quick else 100)
+        # the manager as it is really started (its own process, entry point on the main
+        # thread) and clients that misbehave at the socket level
+        if spec["shard"] % 4 == 1 or not quick:
+            entry_point_process(acc, spec, rng)
     finally:
         steps.stop()
         for (s, dev) in st.values():
@@ -555,6 +561,116 @@ def live(acc, spec, rng, n):
         if srv.server is not None:
             srv.server.shutdown()
         t.join(5)
+
+
+def entry_point_process(acc, spec, rng):
+    """mgr.runner.ManagerRunner.run() - what manager_ledger.py calls - in a child process,
+    on its main thread, logging configured from the shipped logging.cfg; clients that hang
+    up without reading, reset the connection, send nothing or half a line.  After each of
+    them the manager must still be there and answer a probe."""
+    import time
+    import subprocess
+    sock = socket.socket()
+    sock.bind(("127.0.0.1", 0))
+    port = sock.getsockname()[1]
+    sock.close()
+    v1 = spec["shard"] % 8 == 5
+    envv = dict(os.environ, PYTHONHASHSEED="0", PYTHONDONTWRITEBYTECODE="1")
+    child = subprocess.Popen([sys.executable, "-m", "pv.props.c03", "--manager-child",
+                              str(port), "1" if v1 else "0"], cwd=env.VERIF, env=envv,
+                             stdout=subprocess.DEVNULL, stderr=subprocess.DEVNULL)
+    try:
+        t0 = time.time()
+        up = False
+        while time.time() - t0 < 20 and child.poll() is None:
+            if _client(port, b'{"command":"version"}\n'):
+                up = True
+                break
+            time.sleep(0.05)
+        if not up:
+            acc.notes.append("entry-point child did not come up (rc=%r)" % child.poll())
+            return
+        acc.count("entry_point_processes")
+        ver = 1 if v1 else 5
+        good = json.dumps({"command": "getPubKey", "version": ver,
+                           "keyId": "m/44'/0'/0'/0/0"}).encode() + b"\n"
+
+        def hangup(line, how):
+            cs = socket.create_connection(("127.0.0.1", port), timeout=5)
+            if line:
+                cs.sendall(line)
+            if how == "rst":
+                import struct as _st
+                cs.setsockopt(socket.SOL_SOCKET, socket.SO_LINGER, _st.pack("ii", 1, 0))
+            elif how == "shut-wr":
+                cs.shutdown(socket.SHUT_WR)
+                time.sleep(0.05)
+            elif how == "linger":
+                time.sleep(0.05)
+            cs.close()
+        behaviours = [("close-without-reading", good, "close"),
+                      ("close-without-reading-again", good, "close"),
+                      ("reset-without-reading", good, "rst"),
+                      ("connect-and-close", b"", "close"),
+                      ("half-a-line", good[:20], "close"),
+                      ("half-a-line-reset", good[:20], "rst"),
+                      ("shutdown-write-side", good, "shut-wr"),
+                      ("two-lines-then-close", good + good, "linger"),
+                      ("garbage-then-close", rng.randbytes(200) + b"\n", "close")]
+        rng.shuffle(behaviours)
+        for name, line, how in behaviours:
+            acc.evaluations += 1
+            acc.count("socket_level_misbehaviours")
+            try:
+                hangup(line, how)
+            except OSError:
+                pass
+            time.sleep(0.05)
+            probe = _client(port, b'{"command":"version"}\n')
+            ok = probe is not None and judge(probe, None) is None and \
+                json.loads(probe.decode()).get("errorcode") == 0
+            if child.poll() is not None or not ok:
+                acc.violation("entry-point:manager-gone-after-client-%s" % name,
+                              {"exit_status": child.poll(), "probe": repr(probe)[:80],
+                               "legacy_mode": v1}, {"kind": "entry", "behaviour": name})
+                return
+            acc.count("answered")
+    finally:
+        if child.poll() is None:
+            child.kill()
+        child.wait(10)
+
+
+def manager_child(argv):
+    """child process: the manager's real entry path on the main thread"""
+    import logging as _l
+    from types import SimpleNamespace
+    port, v1 = int(argv[0]), argv[1] == "1"
+    env.setup()
+    _l.disable(_l.NOTSET)
+    from ..simdev.transport import Bus, HidPatch, VirtualClock
+    from comm.platform import Platform
+    from mgr.runner import ManagerRunner
+    from ledger.hsm2dongle import HSM2Dongle
+    import ledger.protocol as lp
+    import manager_ledger
+    import tempfile
+    dev = c02.make_device(random.Random(6))
+    bus = Bus(dev, VirtualClock())
+    lp.HSM2ProtocolLedger.OPEN_APP_WAIT = 0
+    Platform.set(Platform.LEDGER)
+    d = tempfile.mkdtemp(prefix="pv-c03-mgr-")
+    pinp = os.path.join(d, "pin.txt")
+    with open(pinp, "wb") as f:
+        f.write(b"abcd1234")
+    os.chdir(os.path.join(env.REPO, "middleware"))
+    opts = SimpleNamespace(host="127.0.0.1", port=port, io_debug=False, pin_file=pinp,
+                           force_pin_change=False, logconfigfilepath="logging.cfg",
+                           version_one=v1)
+    with HidPatch(bus):
+        ManagerRunner("powHSM manager", lambda o: HSM2Dongle(o.io_debug),
+                      manager_ledger.load_pin).run(opts)
+    return 0
 
 
 def _quiet(fn):
@@ -616,3 +732,8 @@ def replay(case, acc):
         v = judge(out, exc)
         if v is not None:
             acc.violation(v[0], v[1], case)
+
+
+if __name__ == "__main__":
+    if len(sys.argv) > 2 and sys.argv[1] == "--manager-child":
+        sys.exit(manager_child(sys.argv[2:]))
